@@ -138,4 +138,17 @@ ENS(T(set) ==> RET == -1)
 ENS(!T(set) ==> RET == PC(W(set, 0u)) + PC(W(set, 1u)) + PC(W(set, 2u)) + PC(W(set, 3u)))
 ;
 
+/* C04, bounded stand-in: hwloc_bitmap_list_sscanf on an arbitrary NUL-terminated string of <= SLEN bytes, with
+ * hwloc_bitmap_zero/set/set_range replaced by their (proved) contracts; parsed numbers < 2^30 (the domain of
+ * those contracts, via STRTOUL_MAX).  The string loops are unwound. */
+#ifdef SLEN
+int hwloc_bitmap_list_sscanf__q(struct hwloc_bitmap_s *set, const char * __hwloc_restrict string)
+REQ(BM(set))
+REQ(__CPROVER_is_fresh(string, SLEN + 1) && string[SLEN] == 0)
+ASG(BM_ASSIGNS(set)) FRE(set->ulongs)
+ENS(RET == 0 || RET == -1)
+ENS(REP_POST(set))
+;
+#endif
+
 #endif
